@@ -12,3 +12,4 @@ git -C $wt apply $patch
 cp /verif/evidence/$pid.json /tmp/ev_$pid.$$ 2>/dev/null || true
 cd /verif && VERIF_REPO=$wt bin/check $pid $tier | tail -${SEED_TAIL:-4} || true
 cp /tmp/ev_$pid.$$ /verif/evidence/$pid.json 2>/dev/null || true; rm -f /tmp/ev_$pid.$$
+tag=$(printf %s "$wt" | sha1sum | cut -c1-10); rm -rf "/verif/build/alt_harness_$tag" "/verif/build/alt_bin_$tag"
